@@ -386,7 +386,7 @@ theorem newParamFail_rest (sk : Skel) (hs : sk.Good) (w : WrapSkel) (ps : List P
   split <;> exact popAfter_rest _ _ _ (problemArg_rest sk hs ps st h)
 
 /-- one backward step of the proof that a composite of the primitive steps keeps `Rest` -/
-macro "rest_step" hB:term : tactic => `(tactic| first
+macro "rest_step" hB:term : tactic => `(tactic| with_reducible first
   | assumption
   | apply popAfter_rest
   | apply popStack_rest
